@@ -189,6 +189,16 @@ def run_case(case):
         n_slots = n_args + sum(2 if has_present else 1 for _g, has_present in globs)
         if any(a is None for a in args):
             viol.append(('params:hole-in-in_type_args', f'`{text}`: {args}'))
+        # every slot the unit declares must be mentioned in the SQL text: PostgreSQL derives the
+        # number of parameters of the prepared statement from the text, and the server binds one
+        # value per declared slot (tuple parameters are decoded into several: skipped)
+        if not any(getattr(a, 'sub_params', None) for a in args if a is not None):
+            unmentioned = sorted(set(range(1, n_slots + 1)) - used)
+            if unmentioned:
+                viol.append(('params:declared-slot-not-in-sql',
+                             f'`{text}`: the unit declares {n_args} arguments and globals {globs} = '
+                             f'{n_slots} parameter slots, but the SQL never mentions '
+                             f'{["$" + str(i) for i in unmentioned]}'))
         if used and max(used) > n_slots:
             viol.append(('params:sql-index-beyond-layout',
                          f'`{text}`: SQL uses ${max(used)} but the unit declares {n_args} arguments and '
